@@ -767,6 +767,9 @@ func (te *tableEngine) PlayerFold(playerID string) error {
 		return ErrGamePlayerNotFound
 	}
 
+	// the round the fold is made in: once the hand engine has the fold, the hand's updater goroutine may move on
+	foldRound := te.game.GetGameState().Status.Round
+
 	gs, err := te.game.Fold(gamePlayerIdx)
 	if err == nil {
 		te.table.State.LastPlayerGameAction = te.createPlayerGameAction(playerID, playerIdx, WagerAction_Fold, 0, gs.GetPlayer(gamePlayerIdx))
@@ -775,7 +778,7 @@ func (te *tableEngine) PlayerFold(playerID string) error {
 		playerState := te.table.State.PlayerStates[playerIdx]
 		playerState.GameStatistics.ActionTimes++
 		playerState.GameStatistics.IsFold = true
-		playerState.GameStatistics.FoldRound = te.game.GetGameState().Status.Round
+		playerState.GameStatistics.FoldRound = foldRound
 
 		if playerState.GameStatistics.IsFt3BChance {
 			playerState.GameStatistics.IsFt3B = true
